@@ -183,6 +183,7 @@ def Src.Fin : Src α → Prop
   | .list _ => True
   | .chain _ => True
   | .obj _ => True
+  | .mixed _ _ _ => True
   | .cyc _ => False
   | .const _ => False
 
@@ -267,6 +268,33 @@ theorem mkSrc_ok {E : List (List α)} {st : St α} {sp : SPool α} (R : Rel E st
           by simp [mkSrc, hp], ?_, ⟨R.hok, relO_set R.objs j ⟨rfl, fun w hw => ok w (by simp [hw])⟩⟩, rfl, ou⟩
         simp at hq
         simp [specSrc, hq]
+  | mixed pre j post =>
+    have hseq : ∀ xs : List α, ((LSeq.fin pre).append ⟨xs, []⟩).append (LSeq.fin post) =
+        (⟨pre ++ (xs ++ post), []⟩ : LSeq α) := by
+      intro xs; simp [LSeq.append, LSeq.fin, LSeq.endless]
+    cases R.lookup j with
+    | missing hp hq => exact .inl ⟨"noobj", by simp [mkSrc, hp], by simp [specSrc, hq]⟩
+    | dead hp hq => exact .inl ⟨"noobj", by simp [mkSrc, hp], by simp [specSrc, hq]⟩
+    | stream it hp hq ok =>
+      exact .inr ⟨⟨st.heap, st.pool.set j .dead⟩, .chain (.src pre) (.chain it (.src post)), sp.set j .dead,
+        by simp [mkSrc, hp], by simp [specSrc, hq, hseq, den],
+        ⟨R.hok, relO_set R.objs j trivial⟩, rfl, ⟨trivial, ok, trivial⟩⟩
+    | hub uses q hp hq ok =>
+      cases hg : uses.getLast? with
+      | none =>
+        have : uses = [] := List.getLast?_eq_none_iff.1 hg
+        subst this
+        exact .inl ⟨"IndexError", by simp [mkSrc, hp], by simp [specSrc, hq]⟩
+      | some u =>
+        obtain ⟨ys, rfl⟩ := List.getLast?_eq_some_iff.1 hg
+        obtain ⟨ou, du⟩ := ok u (by simp)
+        subst du
+        refine .inr ⟨⟨st.heap, st.pool.set j (.hub ys)⟩, .chain (.src pre) (.chain u (.src post)),
+          sp.set j (.hub ⟨den E u, []⟩ ys.length),
+          by simp [mkSrc, hp], ?_, ⟨R.hok, relO_set R.objs j ⟨rfl, fun w hw => ok w (by simp [hw])⟩⟩, rfl,
+          ⟨trivial, ou, trivial⟩⟩
+        simp at hq
+        simp [specSrc, hq, hseq, den]
 
 theorem target_ok {E : List (List α)} {st : St α} {sp : SPool α} (R : Rel E st sp) (i : Nat) :
     (∃ e, target st i = .error e ∧ specTarget sp i = .error e) ∨
